@@ -7,8 +7,9 @@
 (*   - prices are integers in "units": one tick = DEN units (DEN is a      *)
 (*     power of two chosen per configuration), so that mid prices and      *)
 (*     dyadic off-grid requests are exact integers;                        *)
-(*   - NoPx = -1 stands for Python's None (market orders have no price);   *)
-(*     0 is a real price: a bid below one tick is accepted at 0;           *)
+(*   - NoPx = -2^30 stands for Python's None (market orders have no price);*)
+(*     0 and negative numbers are prices (Order only warns about them): a  *)
+(*     bid below one tick is accepted at 0;                                *)
 (*   - ttl = 0 stands for ttl=None (never expires);                        *)
 (*   - an accepted order is the record                                     *)
 (*       [id, ag, buy, mo, px, vol, t0, ttl]                               *)
@@ -18,7 +19,8 @@
 (***************************************************************************)
 EXTENDS Naturals, Integers, Sequences, FiniteSets, SequencesExt, FiniteSetsExt, Functions
 
-NoPx == -1
+NoPx == -1073741824
+BadPx == NoPx - 1        \* a recorded price that is not on the unit grid at all (never used in arithmetic)
 
 MkOrder(id, ag, buy, mo, px, vol, t0, ttl) ==
   [id |-> id, ag |-> ag, buy |-> buy, mo |-> mo, px |-> IF mo THEN NoPx ELSE px,
